@@ -33,6 +33,7 @@ type HRec struct {
 	Events []string `json:"events"`
 	Weight int      `json:"weight"`
 	Pols   []string `json:"pols"`
+	Keep   bool     `json:"keep"` // the hook manifest carries helm.sh/resource-policy: keep
 }
 
 // Rec is the abstract form of a stored release record.
@@ -186,7 +187,8 @@ func projectRelease(r *rspb.Release) Rec {
 	rec.ManD = digest([]byte(r.Manifest))
 	rec.Man = ParseManifest(r.Manifest)
 	for _, h := range r.Hooks {
-		hr := HRec{ID: h.Name, Kind: h.Kind, Weight: h.Weight, Events: []string{}, Pols: []string{}}
+		hr := HRec{ID: h.Name, Kind: h.Kind, Weight: h.Weight, Events: []string{}, Pols: []string{},
+			Keep: strings.Contains(h.Manifest, "helm.sh/resource-policy: keep")}
 		for _, e := range h.Events {
 			hr.Events = append(hr.Events, string(e))
 		}
